@@ -30,7 +30,7 @@ inductive HS where
   | leaf (isCell : Bool) (div : ObjId) (side : Bool) (cell : Option ObjId)
   | compl (l : HS) (cell : Option ObjId)
   | bin (union : Bool) (l r : HS) (cell : Option ObjId)
-  deriving Repr, Inhabited
+  deriving Repr, Inhabited, DecidableEq
 
 namespace HS
 
@@ -268,6 +268,24 @@ def iopAlias (u : Bool) (st : St) (c : ObjId) (other : HS) : Res :=
     match iop u st g other with
     | ((st1, e), g1, _) => (st1.updCell c (fun cs => { cs with geom := some g1 }), e)
 
+/-- the first half of the repaired half_space.py:UnitHalfSpace.divider.setter: the new divider is
+    registered with the cell the leaf points at (`self._cell = p`) unless it is `in` the container -/
+def registerDivider (st : St) (p : Option ObjId) (ic : Bool) (d : ObjId) : Res :=
+  match p with
+  | none => (st, none)
+  | some c' =>
+    if ic then (if (st.cellOf c').comps.contains d then (st, none) else cellCompAppend st c' d)
+    else (if memS st d (st.cellOf c').surfs then (st, none) else cellSurfAppend st c' d)
+
+/-- the second half: `self._divider = div` (only reached when nothing was raised) -/
+def replaceDivider (c : ObjId) (path : List Bool) (newLeaf : HS) : Res → Res
+  | (st1, none) =>
+    -- re-read the geometry: the append may have touched this very cell record
+    match (st1.cellOf c).geom with
+    | some g1 => (st1.updCell c (fun cs => { cs with geom := some (g1.set path newLeaf) }), none)
+    | none => (st1, none)
+  | r => r
+
 /-- half_space.py:UnitHalfSpace.divider.setter on the node at `path` of `cell.geometry`
     (repaired code: the container is updated first, then `_divider`). -/
 def setDivider (st : St) (c : ObjId) (path : List Bool) (divIsCell : Bool) (d : ObjId) : Res :=
@@ -277,19 +295,7 @@ def setDivider (st : St) (c : ObjId) (path : List Bool) (divIsCell : Bool) (d : 
     match g.get? path with
     | some (.leaf ic _ side p) =>
       if ic != divIsCell then (st, some .typeError)
-      else
-        let r : Res := match p with
-          | none => (st, none)
-          | some c' =>
-            if ic then (if (st.cellOf c').comps.contains d then (st, none) else cellCompAppend st c' d)
-            else (if memS st d (st.cellOf c').surfs then (st, none) else cellSurfAppend st c' d)
-        match r with
-        | (st1, none) =>
-          -- re-read the geometry: the append may have touched this very cell record
-          match (st1.cellOf c).geom with
-          | some g1 => (st1.updCell c (fun cs => { cs with geom := some (g1.set path (.leaf ic d side p)) }), none)
-          | none => (st1, none)
-        | r => r
+      else replaceDivider c path (.leaf ic d side p) (registerDivider st p ic d)
     | _ => (st, some .attributeError)
 
 /-- `node.left = new` / `node.right = new` on the node at `path` (utilities.py:make_prop_pointer setter
@@ -657,7 +663,7 @@ inductive Op
   | setCells (cs : List ObjId)
   | addCellChildren
   | reupdate
-  deriving Repr
+  deriving Repr, DecidableEq
 
 def step (st : St) : Op → Res
   | .setGeometry c g => setGeometry st c g
